@@ -229,4 +229,175 @@ def dirnodeChildKey (writekey rwUri : List UInt8) : List UInt8 × (List UInt8) :
 /-- `dirnode._encrypt_rw_uri` MAC: `hmac(key, salt + crypttext)` -/
 def dirnodeChildMac (key salt crypttext : List UInt8) : List UInt8 := hmacAsWritten key (salt ++ crypttext)
 
+/-! ## Catalogue of the tagged derivations (used to state domain separation)
+
+`Deriv` lists every *tagged* SHA-256d derivation of hashutil.py with its arguments; `Deriv.kind` forgets
+the arguments.  `Deriv.tag` / `Deriv.rest` are what the code feeds to the hasher: first
+`netstring(tag)`, then `rest`; `none` exactly where the code raises (ValueError / the peerid assert).
+`Deriv.eval` is the digest, defined through the model functions above; `eval_eq` (Lemmas) shows that it
+is `truncate trunc (sha256d pre)`. -/
+
+inductive Kind
+  | storageIndex | block | ueb | plaintext | crypttext | crypttextSegment | plaintextSegment
+  | backupdbDirhash | convergence | clientRenewal | clientCancel | fileRenewal | fileCancel
+  | bucketRenewal | bucketCancel | sskWritekey | sskWriteEnablerMaster | sskWriteEnabler
+  | sskPubkeyFingerprint | sskReadkey | sskDatakey | sskStorageIndex | dirnodeChildKey
+  | dirnodeChildSalt
+  deriving DecidableEq, Repr
+
+inductive Deriv
+  | storageIndex (key : List UInt8)
+  | block (d : List UInt8)
+  | ueb (d : List UInt8)
+  | plaintext (d : List UInt8)
+  | crypttext (d : List UInt8)
+  | crypttextSegment (d : List UInt8)
+  | plaintextSegment (d : List UInt8)
+  | backupdbDirhash (d : List UInt8)
+  | convergence (k n segsize : Int) (data convergence : List UInt8)
+  | clientRenewal (leaseSecret : List UInt8)
+  | clientCancel (leaseSecret : List UInt8)
+  | fileRenewal (crs si : List UInt8)
+  | fileCancel (ccs si : List UInt8)
+  | bucketRenewal (frs peerid : List UInt8)
+  | bucketCancel (fcs peerid : List UInt8)
+  | sskWritekey (privkey : List UInt8)
+  | sskWriteEnablerMaster (writekey : List UInt8)
+  | sskWriteEnabler (writekey peerid : List UInt8)
+  | sskPubkeyFingerprint (pubkey : List UInt8)
+  | sskReadkey (writekey : List UInt8)
+  | sskDatakey (iv readkey : List UInt8)
+  | sskStorageIndex (readkey : List UInt8)
+  | dirnodeChildKey (iv writekey : List UInt8)
+  | dirnodeChildSalt (rwcap : List UInt8)
+
+def Deriv.kind : Deriv → Kind
+  | .storageIndex .. => .storageIndex | .block .. => .block | .ueb .. => .ueb
+  | .plaintext .. => .plaintext | .crypttext .. => .crypttext
+  | .crypttextSegment .. => .crypttextSegment | .plaintextSegment .. => .plaintextSegment
+  | .backupdbDirhash .. => .backupdbDirhash | .convergence .. => .convergence
+  | .clientRenewal .. => .clientRenewal | .clientCancel .. => .clientCancel
+  | .fileRenewal .. => .fileRenewal | .fileCancel .. => .fileCancel
+  | .bucketRenewal .. => .bucketRenewal | .bucketCancel .. => .bucketCancel
+  | .sskWritekey .. => .sskWritekey | .sskWriteEnablerMaster .. => .sskWriteEnablerMaster
+  | .sskWriteEnabler .. => .sskWriteEnabler | .sskPubkeyFingerprint .. => .sskPubkeyFingerprint
+  | .sskReadkey .. => .sskReadkey | .sskDatakey .. => .sskDatakey
+  | .sskStorageIndex .. => .sskStorageIndex | .dirnodeChildKey .. => .dirnodeChildKey
+  | .dirnodeChildSalt .. => .dirnodeChildSalt
+
+/-- the tag constant of the kinds whose tag is a module constant (all but convergence and the two
+    client secrets, where the "tag" is computed / is the secret) -/
+def Kind.fixedTag? : Kind → Option (List UInt8)
+  | .storageIndex => some Hashutil.STORAGE_INDEX_TAG
+  | .block => some Hashutil.BLOCK_TAG
+  | .ueb => some Hashutil.UEB_TAG
+  | .plaintext => some Hashutil.PLAINTEXT_TAG
+  | .crypttext => some Hashutil.CIPHERTEXT_TAG
+  | .crypttextSegment => some Hashutil.CIPHERTEXT_SEGMENT_TAG
+  | .plaintextSegment => some Hashutil.PLAINTEXT_SEGMENT_TAG
+  | .backupdbDirhash => some Hashutil.BACKUPDB_DIRHASH_TAG
+  | .convergence => none
+  | .clientRenewal => none
+  | .clientCancel => none
+  | .fileRenewal => some Hashutil.FILE_RENEWAL_TAG
+  | .fileCancel => some Hashutil.FILE_CANCEL_TAG
+  | .bucketRenewal => some Hashutil.BUCKET_RENEWAL_TAG
+  | .bucketCancel => some Hashutil.BUCKET_CANCEL_TAG
+  | .sskWritekey => some Hashutil.MUTABLE_WRITEKEY_TAG
+  | .sskWriteEnablerMaster => some Hashutil.MUTABLE_WRITE_ENABLER_MASTER_TAG
+  | .sskWriteEnabler => some Hashutil.MUTABLE_WRITE_ENABLER_TAG
+  | .sskPubkeyFingerprint => some Hashutil.MUTABLE_PUBKEY_TAG
+  | .sskReadkey => some Hashutil.MUTABLE_READKEY_TAG
+  | .sskDatakey => some Hashutil.MUTABLE_DATAKEY_TAG
+  | .sskStorageIndex => some Hashutil.MUTABLE_STORAGEINDEX_TAG
+  | .dirnodeChildKey => some Hashutil.DIRNODE_CHILD_WRITECAP_TAG
+  | .dirnodeChildSalt => some Hashutil.DIRNODE_CHILD_SALT_TAG
+
+/-- `some ()` unless the code raises for these arguments -/
+def Deriv.tag : Deriv → Option (List UInt8)
+  | .convergence k n s _ c => convergenceHasherTag k n s c
+  | .clientRenewal s => some s
+  | .clientCancel s => some s
+  | .bucketRenewal _ p => if p.length = 20 then some Hashutil.BUCKET_RENEWAL_TAG else none
+  | .bucketCancel _ p => if p.length = 20 then some Hashutil.BUCKET_CANCEL_TAG else none
+  | .sskWriteEnabler _ p => if p.length = 20 then some Hashutil.MUTABLE_WRITE_ENABLER_TAG else none
+  | d => d.kind.fixedTag?
+
+/-- what follows `netstring(tag)` in the hasher input -/
+def Deriv.rest : Deriv → List UInt8
+  | .storageIndex v | .block v | .ueb v | .plaintext v | .crypttext v | .crypttextSegment v
+  | .plaintextSegment v | .backupdbDirhash v | .sskWritekey v | .sskWriteEnablerMaster v
+  | .sskPubkeyFingerprint v | .sskReadkey v | .sskStorageIndex v | .dirnodeChildSalt v => v
+  | .convergence _ _ _ data _ => data
+  | .clientRenewal _ => Hashutil.CLIENT_RENEWAL_TAG
+  | .clientCancel _ => Hashutil.CLIENT_CANCEL_TAG
+  | .fileRenewal a b | .fileCancel a b | .bucketRenewal a b | .bucketCancel a b | .sskDatakey a b
+  | .dirnodeChildKey a b => netstring a ++ netstring b
+  | .sskWriteEnabler wk p => netstring (sskWriteEnablerMasterHash wk) ++ netstring p
+
+/-- the exact byte string fed to SHA-256 (first application) -/
+def Deriv.pre (d : Deriv) : Option (List UInt8) := d.tag.map (fun t => netstring t ++ d.rest)
+
+/-- the `truncate_to` in force -/
+def Deriv.trunc : Deriv → Option Int
+  | .storageIndex .. => Hashutil.TRUNC_storage_index_hash
+  | .block .. => Hashutil.TRUNC_block_hash
+  | .ueb .. => Hashutil.TRUNC_uri_extension_hash
+  | .plaintext .. => Hashutil.TRUNC_plaintext_hash
+  | .crypttext .. => Hashutil.TRUNC_crypttext_hash
+  | .crypttextSegment .. => Hashutil.TRUNC_crypttext_segment_hash
+  | .plaintextSegment .. => Hashutil.TRUNC_plaintext_segment_hash
+  | .backupdbDirhash .. => Hashutil.TRUNC_backupdb_dirhash
+  | .convergence .. => Hashutil.TRUNC_convergence_hash
+  | .clientRenewal .. => Hashutil.TRUNC_my_renewal_secret_hash
+  | .clientCancel .. => Hashutil.TRUNC_my_cancel_secret_hash
+  | .fileRenewal .. => Hashutil.TRUNC_file_renewal_secret_hash
+  | .fileCancel .. => Hashutil.TRUNC_file_cancel_secret_hash
+  | .bucketRenewal .. => Hashutil.TRUNC_bucket_renewal_secret_hash
+  | .bucketCancel .. => Hashutil.TRUNC_bucket_cancel_secret_hash
+  | .sskWritekey .. => Hashutil.TRUNC_ssk_writekey_hash
+  | .sskWriteEnablerMaster .. => Hashutil.TRUNC_ssk_write_enabler_master_hash
+  | .sskWriteEnabler .. => Hashutil.TRUNC_ssk_write_enabler_hash
+  | .sskPubkeyFingerprint .. => Hashutil.TRUNC_ssk_pubkey_fingerprint_hash
+  | .sskReadkey .. => Hashutil.TRUNC_ssk_readkey_hash
+  | .sskDatakey .. => Hashutil.TRUNC_ssk_readkey_data_hash
+  | .sskStorageIndex .. => Hashutil.TRUNC_ssk_storage_index_hash
+  | .dirnodeChildKey .. => Hashutil.TRUNC_mutable_rwcap_key_hash
+  | .dirnodeChildSalt .. => Hashutil.TRUNC_mutable_rwcap_salt_hash
+
+/-- the digest, through the model functions (this is what the driver / the code computes) -/
+def Deriv.eval : Deriv → Option (List UInt8)
+  | .storageIndex v => some (storageIndexHash v)
+  | .block v => some (blockHash v)
+  | .ueb v => some (uriExtensionHash v)
+  | .plaintext v => some (plaintextHash v)
+  | .crypttext v => some (crypttextHash v)
+  | .crypttextSegment v => some (crypttextSegmentHash v)
+  | .plaintextSegment v => some (plaintextSegmentHash v)
+  | .backupdbDirhash v => some (Tahoe.Crypto.Derive.backupdbDirhash v)
+  | .convergence k n s data c => convergenceHash k n s data c
+  | .clientRenewal s => some (myRenewalSecretHash s)
+  | .clientCancel s => some (myCancelSecretHash s)
+  | .fileRenewal a b => some (fileRenewalSecretHash a b)
+  | .fileCancel a b => some (fileCancelSecretHash a b)
+  | .bucketRenewal a b => bucketRenewalSecretHash a b
+  | .bucketCancel a b => bucketCancelSecretHash a b
+  | .sskWritekey v => some (sskWritekeyHash v)
+  | .sskWriteEnablerMaster v => some (sskWriteEnablerMasterHash v)
+  | .sskWriteEnabler a b => sskWriteEnablerHash a b
+  | .sskPubkeyFingerprint v => some (sskPubkeyFingerprintHash v)
+  | .sskReadkey v => some (sskReadkeyHash v)
+  | .sskDatakey a b => some (sskReadkeyDataHash a b)
+  | .sskStorageIndex v => some (sskStorageIndexHash v)
+  | .dirnodeChildKey a b => some (mutableRwcapKeyHash a b)
+  | .dirnodeChildSalt v => some (mutableRwcapSaltHash v)
+
+/-- documented input lengths that domain separation depends on: the lease secret is 32 bytes
+    (docs/specifications/lease.rst; `client._make_secret` uses CRYPTO_VAL_SIZE).  Needed only because
+    `my_*_secret_hash` puts the secret in the tag position. -/
+def Deriv.WellFormed : Deriv → Prop
+  | .clientRenewal s => s.length = 32
+  | .clientCancel s => s.length = 32
+  | _ => True
+
 end Tahoe.Crypto.Derive
